@@ -8,7 +8,7 @@ MATCH = r"match_node_with_env"
 OPS_DECIDED_C04 = "frame law on trait Matcher (None => env unchanged; Some => env exactly the reference env) proved for &T, MatchAll, MatchNone, Op, Or, Not, And, All, Any"
 PROPS = {
     "C01": {
-        "units": [("ops", KINDS), ("rule_core", KINDS + "|do_match|with_"), ("rule", KINDS), ("combined", r"CombinedScan|lemma"), ("pattern", KINDS + "|match_node_impl|match_node_non_recursive|fixed_string"), ("atomic", KINDS), "find_all", ("referent", KINDS + "|eval_"), "traversal", "visit", "scan"],
+        "units": [("ops", KINDS), ("rule_core", KINDS + "|do_match|with_"), ("rule", KINDS), ("combined", r"CombinedScan|lemma"), ("pattern", KINDS + "|match_node_impl|match_node_non_recursive|fixed_string"), ("atomic", KINDS), "find_all", ("referent", KINDS + "|eval_"), ("nth_matcher", KINDS), "traversal", "visit", "scan"],
         "kani": [],
         "decided": ["FindAllNodes::next returns the first remaining node (pre-order) that the matcher matches when tried from an empty environment: the kind filter drops nothing",
                     "Pre::next / Pre::calibrate_for_match (unit traversal): the dfs iterator yields exactly the pre-order of the subtree; calibrating after a match skips exactly the subtree of the matched node",
@@ -36,14 +36,14 @@ PROPS = {
         "assumptions": ["MetaVarEnv::insert / insert_multi obey the statements in prelude/env_ops.rs"],
     },
     "C04": {
-        "units": [("ops", MATCH), ("rule_core", MATCH + "|do_match"), ("rule", MATCH + "|match_and_add_label"), ("pattern", MATCH), "meta_var", ("atomic", MATCH)],
+        "units": [("ops", MATCH), ("rule_core", MATCH + "|do_match"), ("rule", MATCH + "|match_and_add_label"), ("pattern", MATCH), "meta_var", ("atomic", MATCH), ("nth_matcher", MATCH)],
         "kani": [],
         "decided": [OPS_DECIDED_C04, "MetaVarEnv::insert / insert_multi bind iff every earlier occurrence is structurally identical (named nodes pairwise for $$$), and change nothing otherwise; match_variable / match_multi_var decide exactly that", "Pattern::match_node_with_env commits bindings only when the pattern matches (scratch Cow)"],
         "not_decided": ["relational rules / ReferentRule / StopBy::find (closures capturing &mut env): frame assumed"],
         "assumptions": [],
     },
     "C05": {
-        "units": [("ops", MATCH), ("rule", MATCH + "|match_and_add_label"), "nth_child", ("atomic", MATCH + "|try_new|::new$")],
+        "units": [("ops", MATCH), ("rule", MATCH + "|match_and_add_label"), "nth_child", ("nth_matcher", MATCH), ("atomic", MATCH + "|try_new|::new$")],
         "kani": [
                  K("config", "numeric_position_exact", "numeric nthChild position selects exactly that 1-based index; values beyond i32 are rejected, not truncated", complete=True),
                  K("config", "parse_an_b_len4", "parse_an_b vs reference An+B grammar", bound="strings over {9,1,n,+,-,space}, length <= 4"),
